@@ -59,14 +59,17 @@ func (m *termMonitor) wait(termOnNoHandlers bool) os.Signal {
 	// number of pending handlers has hit 0.  In the case of the
 	// latter, treat it as if a SIGTERM has been received.
 	for {
+		// Test the condition before blocking: there may be no handler
+		// active at the time of the call, in which case no event will
+		// ever arrive to trigger a re-evaluation.
+		if termOnNoHandlers && m.numHandlers == 0 {
+			return syscall.SIGTERM
+		}
 		select {
 		case n := <-m.handlerChan:
 			m.numHandlers += n
 		case sig := <-m.sigChan:
 			return sig
-		}
-		if termOnNoHandlers && m.numHandlers == 0 {
-			return syscall.SIGTERM
 		}
 	}
 }
